@@ -1,5 +1,5 @@
 """Direct explorations for C02 C03 C10 C12(format) C13 C14 C15 C16 C17(find)."""
-import itertools, random, re
+import itertools, json, random, re
 
 import ansi_string
 from ansi_string import AnsiString, AnsiStr, AnsiFormat, AnsiSetting
@@ -28,7 +28,12 @@ def call(fn):
 
 def value_obs(o):
     """observation used to compare two values: text, per-character (canonical id, text), 8 renderings"""
-    c = canon(raw_obs(o))
+    try:
+        c = canon(raw_obs(o))
+    except Hang:
+        raise
+    except Exception as e:  # noqa: the implementation raises while the value is being read - an observation of its own
+        return ('unreadable', errname(e), str(e)[:200])
     return (c[1], c[2], c[3], c[4], c[5], c[7])
 
 
@@ -144,6 +149,27 @@ def validate_pystr(rep, rng, tier):
         raise SpecOracleError('Spec/PyStr.v disagrees with CPython str on %d of %d cases, first: %s' % (len(bad), len(reqs), bad[0]))
 
 
+def c10_make(clsname, t, settings):
+    """the receiver of a C10 case.  '<cls>(AnsiString), source edited afterwards': the value is built FROM a mutable AnsiString
+    which the caller keeps and edits in place afterwards - the built value's text is still t"""
+    if clsname in ('AnsiString', 'AnsiStr'):
+        cls = AnsiStr if clsname == 'AnsiStr' else AnsiString
+        s = cls(t, *settings)
+        if settings and len(t) > 1 and cls is AnsiString:
+            s.apply_formatting('bold', 1)
+        return s
+    cls = AnsiStr if clsname.startswith('AnsiStr(') else AnsiString
+    src = AnsiString(t, *settings)
+    s = cls(src)
+    src.upper(inplace=True)
+    src.swapcase(inplace=True)
+    src += 'zz'
+    src.strip('z', inplace=True)
+    src.ljust(len(t) + 3, '.', inplace=True)
+    src.assign_str('q' + t)
+    return s
+
+
 def c10_run(rep, rng, tier, term):
     viol = []
     validate_pystr(rep, rng, tier)
@@ -158,18 +184,19 @@ def c10_run(rep, rng, tier, term):
     for k in range(n):
         t = rand_text(rng)
         cls = AnsiString if k % 3 else AnsiStr
+        clsname = cls.__name__ if k % 7 else cls.__name__ + '(AnsiString), source edited afterwards'
         settings = [] if k % 2 else ['red']
         try:
-            s = cls(t, *settings)
-            if settings and len(t) > 1 and cls is AnsiString:
-                s.apply_formatting('bold', 1)
+            s = c10_make(clsname, t, settings)
         except Exception as e:  # noqa
             viol.append({'oracle': 'C10.construct', 'case': {'text': t}, 'msg': 'constructor raised %r' % e})
             continue
         if ESC in t:
             continue
         for (name, args, exp, kind) in c10_calls(rng, t):
-            payload = {'class': cls.__name__, 'text': t, 'method': name, 'args': list(args)}
+            payload = {'class': clsname, 'text': t, 'method': name, 'args': list(args)}
+            if k % 2 == 0:
+                payload['settings'] = settings
             rep.count(payload, bool(t))
             rep.bump('method:' + name)
             if exp is None:
@@ -205,9 +232,8 @@ def c10_run(rep, rng, tier, term):
 
 def c10_replay(v, term):
     c = v['case']
-    cls = AnsiStr if c.get('class') == 'AnsiStr' else AnsiString
     t, name, args = c['text'], c['method'], tuple(c['args'])
-    s = cls(t)
+    s = c10_make(c.get('class', 'AnsiString'), t, c.get('settings', []))
     for (nm, a, exp, kind) in c10_calls(random.Random(0), t):
         pass
     got = call(lambda: getattr(s, name)(*args))
@@ -322,7 +348,7 @@ def c14_run(rep, rng, tier, term):
     for c in range(0, 256):
         ref = call(lambda: settings_of(c))
         forms = [str(c), [c], (c,), [[c]]]
-        if c:
+        if True:        # 0 included: AnsiString('x', 0) is the reset code like '0' and [0] (only apply_formatting(0) ignores a falsy argument)
             for f in forms:
                 got = call(lambda: settings_of(f))
                 rep.count({'code': c, 'form': repr(f)}, True)
@@ -338,7 +364,9 @@ def c14_run(rep, rng, tier, term):
         if code is not None:
             check_equal('codes', code, [txt, [txt], 'bold;' + txt if False else txt], {'directive': txt})
     # groups
-    groups = [[38, 5, 214], [48, 2, 1, 2, 3], [58, 5, 9], [1, 38, 5, 214], [4, 58, 2, 1, 2, 3], [31, 1], [38, 5, 214, 1], [1, 31, 4]]
+    groups = [[38, 5, 214], [48, 2, 1, 2, 3], [58, 5, 9], [1, 38, 5, 214], [4, 58, 2, 1, 2, 3], [31, 1], [38, 5, 214, 1], [1, 31, 4],
+              # zero as palette index, colour component and reset code, in every position
+              [38, 5, 0], [48, 5, 0, 1], [38, 2, 0, 9, 9], [38, 2, 9, 0, 9], [48, 2, 0, 0, 0], [21, 58, 2, 0, 0, 128], [1, 0], [0, 1], [0, 38, 5, 0, 0], [31, 0, 0]]
     for g in groups:
         flat = list(g)
         text = ';'.join(map(str, g))
@@ -352,7 +380,7 @@ def c14_run(rep, rng, tier, term):
     # neighbours (every code 0..255, plus malformed / dangling colour groups), as int, decimal string and nested
     neigh = [('member', AnsiFormat.ITALIC, ['member', 'ITALIC']), ('name', 'underline', ['str', 'underline']),
              ('verbatim', '[1;31', ['str', '[1;31']), ('setting', AnsiSetting('34'), ['setting', '34'])]
-    runs = [[c] for c in range(1, 256)] + [[38], [38, 7], [38, 5], [48, 2, 1], [99, 38, 5, 1], [38, 38, 5, 1], [73, 1], [1, 73], [58, 5, 1, 300]]
+    runs = [[c] for c in range(0, 256)] + [[0, 1], [38, 5, 0], [38, 2, 0, 0, 0], [0, 0], [38], [38, 7], [38, 5], [48, 2, 1], [99, 38, 5, 1], [38, 38, 5, 1], [73, 1], [1, 73], [58, 5, 1, 300]]
     for run in runs:
         alone = call(lambda: settings_of(list(run)))
         if alone[0] != 'ok':
@@ -447,7 +475,8 @@ def c14_run(rep, rng, tier, term):
            ('rgb(0x102030)\n', 'ValueError'), ('rgb([1,2,3]', 'ValueError'), ('rgb(1,2,3', 'ValueError'), ('rgb)1,2,3(', 'ValueError'),
            ('1_0', 'ValueError'), ('+1', 'ValueError'), ('-0', 'ValueError'), ('\uff13\uff11', 'ValueError'), ('\u0663', 'ValueError'), ('bold;3_1', 'ValueError'), ('1.0', 'ValueError'), ('1e1', 'ValueError'),
            ('nosuchname', 'ValueError'), (-1, 'ValueError'), ('rgb(1,2)', 'ValueError'), ('rgb(zz)', 'ValueError'), ('rgb(1,2,x)', 'ValueError'),
-           ('color256(g)', 'ValueError'), (1.5, 'TypeError'), (None, 'skip'), ({'a': 1}, 'TypeError'), (['red', 2.5], 'TypeError'), ('-3', 'ValueError'),
+           ('color256(g)', 'ValueError'), (1.5, 'TypeError'), (None, 'TypeError'), ([None], 'TypeError'), (0.0, 'TypeError'), ([0.0], 'TypeError'), ({}, 'TypeError'), ([{}], 'TypeError'),
+           (b'', 'TypeError'), ([b''], 'TypeError'), (b'red', 'TypeError'), (['bold', None], 'TypeError'), (Positional(['bold', None]), 'TypeError'), (set(), 'TypeError'), ({'a': 1}, 'TypeError'), (['red', 2.5], 'TypeError'), ('-3', 'ValueError'),
            ('bold;nosuch', 'ValueError'), ([[-2]], 'ValueError')]
     for f, want in bad:
         if want == 'skip':
@@ -798,6 +827,19 @@ def c02_check(term, w, viol, payload):
         if any(s.ansi_settings_at(i) for i in range(len(w))):
             viol.append({'oracle': 'C02.plain', 'case': payload, 'msg': 'text without escapes got settings'})
         return
+    # control sequences that are not SGR stay in the text AS CHARACTERS: the codes of every SGR sequence apply from the same
+    # character on as when each such sequence is replaced by as many ordinary characters
+    w2 = CSI_RE.sub(lambda m: m.group(0) if m.group(2) == 'm' else 'Z' * len(m.group(0)), w)
+    if w2 != w:
+        r2 = call(lambda: AnsiString(w2))
+        if r2[0] == 'ok' and len(r2[1].base_str) == len(exp_text):
+            for i in range(len(exp_text)):
+                a, b = [str(x) for x in s.ansi_settings_at(i)], [str(x) for x in r2[1].ansi_settings_at(i)]
+                if a != b:
+                    viol.append({'oracle': 'C02.position', 'case': payload,
+                                 'msg': 'character %d (%r) reports %s; with the non-SGR sequences replaced by ordinary characters (%r) the same character reports %s'
+                                        % (i, exp_text[i], a, w2, b)})
+                    return
     # the style clause is about inputs whose SGR sequences have numeric bodies and whose remaining
     # text does not itself contain ESC (otherwise the terminal and the library tokenise differently: K1)
     if SGR_RE.sub('', NUMERIC_SGR.sub('', w)) != NUMERIC_SGR.sub('', w) or '\x1b' in exp_text:
@@ -867,9 +909,26 @@ def styles_of(term, o):
     return [term.style([str(x) for x in o.ansi_settings_at(i)]) for i in range(len(o.base_str))]
 
 
+def esc_safe(o):
+    """A value whose text contains U+001B is evaluated when the known finding K1 cannot apply to it: every ESC[ in the text
+    starts a COMPLETE control sequence that is not SGR (final byte other than 'm'), no style change lies strictly inside such a
+    sequence (the characters of one sequence all report the very same setting objects) and the text does not end in ESC.
+    Then the rendering keeps the embedded sequences intact and re-tokenises into the same text."""
+    base = o.base_str
+    if base.endswith(ESC):
+        return False
+    for m in CSI_RE.finditer(base):
+        if m.group(2) in ('', 'm'):
+            return False
+        ids = set(tuple(id(x) for x in o.ansi_settings_at(i)) for i in range(m.start(), m.end()))
+        if len(ids) > 1:
+            return False
+    return True
+
+
 def c03_check(term, o, viol, payload):
     base = o.base_str
-    if ESC in base:
+    if ESC in base and not esc_safe(o):
         return 'esc'
     used = [str(s) for i in range(len(base)) for s in o.ansi_settings_at(i)]
     infos = [term.info(t) for t in set(used)]
@@ -924,11 +983,43 @@ def c03_run(rep, rng, tier, term):
     impl.drain_unobservable()
     vals += impl.build_values(rng, 200 if tier == 'quick' else 8000, odd=False)
     impl.drain_unobservable()
+    # texts with embedded COMPLETE non-SGR control sequences (cursor / erase helpers of the library itself, function keys):
+    # they stay in the text, and every style change after them must survive render + re-parse at the same character
+    toks = [t for t in NON_SGR if CSI_RE.fullmatch(t) and CSI_RE.fullmatch(t).group(2) not in ('', 'm')]
+    nesc = 0
+    for k in range(60 if tier == 'quick' else 3000):
+        tok, tok2 = rng.choice(toks), rng.choice(toks)
+        pre, mid, post = rng.choice(['', 'a', 'ab']), rng.choice(['', 'status: ', 'b']), rng.choice(['OK', 'c', ''])
+        text = pre + tok + mid + (tok2 if k % 3 == 0 else '') + post
+        a, b = len(pre), len(pre) + len(tok)
+        ops = [['new', k % 2, text, ([] if k % 4 else [['str', 'italic']])]]
+        # change points at the boundaries of the embedded sequence and after it, never strictly inside
+        for (f, st, en) in rng.sample([(['str', 'bold'], 0, a), (['str', 'red'], b, None), (['str', 'underline'], a, b), (['str', 'bg_blue'], b + len(mid), None),
+                                       (['str', 'green'], 0, b), (['list', [['int', 38], ['int', 5], ['int', 214]]], len(text) - len(post), None),
+                                       (['str', '[1;31'], b, None)], rng.randint(1, 3)):
+            ops.append(['apply', 0, f, st, en, True])
+        if k % 5 == 0:
+            ops[0] = ['new', k % 2, pre + tok + mid + '\x1b[1;32m' + post + '\x1b[m' + (tok2 if k % 3 == 0 else ''), []]
+            ops = ops[:1]
+        pool = impl.Pool()
+        try:
+            for op in ops:
+                pool.run(op)
+        except Exception:  # noqa
+            continue
+        vals.append((pool.objs[0], ops, 0))
+        nesc += 1
+    rep.bump('values with embedded non-SGR control sequences', nesc)
+    status = {}
     def go():
         del viol[:]
+        status.clear()
         for (o, ops, i) in vals:
-            c03_check(term, o, viol, {'history': ops, 'object': i})
+            r = c03_check(term, o, viol, {'history': ops, 'object': i})
+            if ESC in o.base_str:
+                status[r] = status.get(r, 0) + 1
     term.two_phase(go)
+    rep.notes.append('values whose text contains U+001B: %s (esc = K1 class, not evaluated)' % dict(status))
     for (o, ops, i) in vals:
         rep.count({'history': ops, 'object': i}, len(o._fmts if hasattr(o, '_fmts') else o._s._fmts) >= 2)
     # correspondence: simplify and re-parse as history steps
@@ -980,7 +1071,9 @@ def gen_spec(rng, n):
     flag = rng.choice(['', '', '+', '-'])
     align = rng.choice(['<', '>', '^', ''])
     width = rng.choice(['', str(n), str(n + 1), str(n + 2), str(n + 5), '0', '3'])
-    ansi = rng.choice([None, None, 'red', 'bold;blue', '[1', '1;31', '', 'bg_rgb(1,2,3)', 'nosuchname'])
+    ansi = rng.choice([None, None, 'red', 'bold;blue', '[1', '1;31', '', 'bg_rgb(1,2,3)', 'nosuchname',
+                       # colons inside the ansi part: only the FIRST colon of the spec separates (':red' is no directive, '[38:5:1' is verbatim)
+                       ':red', ':', '::1', ':[1', 'red:', '1:31', '[:', '[38:5:1', ' red', 'red '])
     if align == '':
         spec = width if rng.random() < 0.7 else fill + flag + width
     else:
@@ -1338,7 +1431,9 @@ def generic_case_replay(runfn):
             def bump(self, *a, **k): pass
         from .term import Term
         vi, _ = runfn(R(), random.Random(int(__import__('os').environ.get('VERIF_SEED', '20260926'))), 'quick', term or Term())
-        hit = [x for x in vi if x['oracle'] == v.get('oracle')]
+        # the SAME case under the same oracle (the run is deterministic for a seed); another case failing under that oracle is
+        # reported by the run itself, with its own input, not under this entry's name
+        hit = [x for x in vi if x['oracle'] == v.get('oracle') and json.dumps(x.get('case'), sort_keys=True, default=str) == json.dumps(v.get('case'), sort_keys=True, default=str)]
         return hit[0]['msg'] if hit else None
     return f
 
